@@ -121,16 +121,40 @@ func (e *events) waitFor(pred func(event) bool, d time.Duration) bool {
 	}
 }
 
-type udpMetricsRec struct{ ev *events }
+// removeGate lets the harness hold a copier goroutine inside RemoveNatEntry, i.e. in the middle of
+// its teardown (after its read timed out, before the entry is deleted and the socket closed).
+type removeGate struct {
+	mu      sync.Mutex
+	armed   bool
+	reached chan struct{}
+	release chan struct{}
+}
+
+func (g *removeGate) take() bool {
+	if g == nil {
+		return false
+	}
+	g.mu.Lock()
+	defer g.mu.Unlock()
+	a := g.armed
+	g.armed = false
+	return a
+}
+
+type udpMetricsRec struct {
+	ev   *events
+	gate *removeGate
+}
 
 func (m *udpMetricsRec) AddUDPNatEntry(clientAddr net.Addr, accessKey string) service.UDPConnMetrics {
 	m.ev.add(event{kind: "natadd", client: clientAddr.String(), s: accessKey})
-	return &udpConnRec{ev: m.ev, client: clientAddr.String()}
+	return &udpConnRec{ev: m.ev, client: clientAddr.String(), gate: m.gate}
 }
 
 type udpConnRec struct {
 	ev     *events
 	client string
+	gate   *removeGate
 }
 
 func (m *udpConnRec) AddPacketFromClient(status string, clientProxyBytes, proxyTargetBytes int64) {
@@ -139,7 +163,13 @@ func (m *udpConnRec) AddPacketFromClient(status string, clientProxyBytes, proxyT
 func (m *udpConnRec) AddPacketFromTarget(status string, targetProxyBytes, proxyClientBytes int64) {
 	m.ev.add(event{kind: "fromtarget", client: m.client, s: status, a: targetProxyBytes, b: proxyClientBytes})
 }
-func (m *udpConnRec) RemoveNatEntry() { m.ev.add(event{kind: "natremove", client: m.client}) }
+func (m *udpConnRec) RemoveNatEntry() {
+	if m.gate.take() {
+		m.gate.reached <- struct{}{}
+		<-m.gate.release
+	}
+	m.ev.add(event{kind: "natremove", client: m.client})
+}
 
 type searchRec struct{ ev *events }
 
@@ -267,6 +297,10 @@ type udpCase struct {
 	idOf     map[string]string   // client -> key id given at natadd
 	conn2    *scriptConn         // second listener served by the SAME handler (own NAT table)
 	hook     *valHook
+	timeout  time.Duration // NAT timeout of the handler of this case
+	gate     *removeGate
+	lifeMode bool            // natlife engine: timing scenarios instead of the random op mix
+	lastDest map[string]dest // per client: destination of its previous well-formed datagram
 }
 
 // valHook lets the harness hold one datagram inside the target-IP validator (public API:
@@ -289,6 +323,7 @@ func (h *valHook) take() bool {
 type pktOpts struct {
 	conn       *scriptConn
 	forceValid bool
+	noDNS      bool           // destination port must not be the DNS port (whose timeout is the fixed 17 s)
 	mid        func() []event // runs after the datagram was handed to the handler, before waiting for it
 }
 
@@ -334,13 +369,86 @@ func udpEngine(rng *Rng, n int, out *Out, args map[string]string) {
 		addSink(e.linkLocal6, 53)
 	}
 	out.Note("udp engine: netns=%v sinks=%d", e.netns, len(sinks))
+	life := args["life"] == "1"
 	for c := 0; c < n; c++ {
-		u := &udpCase{out: out, r: rng.Fork(), env: e, sinkCh: sinkCh, sinks: sinks}
+		u := &udpCase{out: out, r: rng.Fork(), env: e, sinkCh: sinkCh, sinks: sinks, lifeMode: life}
+		if life {
+			u.timeout = time.Duration(120+u.r.Intn(120)) * time.Millisecond
+		}
 		u.run(c)
 	}
 	for _, s := range sinks {
 		s.conn.Close()
 	}
+}
+
+func init() { engines["natlife"] = udpEngine }
+
+// lifeScenario: timing-dependent behaviour of associations with a short NAT timeout.
+//  1. keep-alive: a second datagram before the timeout must reuse the socket, and the association
+//     must then live at least `timeout` after THAT datagram (checked at 1.5 timeouts after the first);
+//  2. idle expiry: without traffic the association is removed within timeout + slack, exactly once;
+//  3. teardown race: a datagram of the same client handled while the copier is in its teardown.
+func (u *udpCase) lifeScenario(clients []*net.UDPAddr, unknown []*specKey) {
+	T := u.timeout
+	c := clients[0]
+	cs := c.String()
+	start := time.Now()
+	u.opPkt(c, unknown, pktOpts{conn: u.conn, forceValid: true, noDNS: true})
+	if _, ok := u.natPort[cs]; !ok {
+		return
+	}
+	port0 := u.natPort[cs]
+	sleepUntil := func(t time.Time) { time.Sleep(time.Until(t)) }
+	// 1. keep-alive at 0.6 T, then probe at 1.45 T (0.85 T after the second datagram)
+	sleepUntil(start.Add(T * 6 / 10))
+	u.flushAsync()
+	second := time.Now()
+	u.opPkt(c, unknown, pktOpts{conn: u.conn, forceValid: true, noDNS: true})
+	sleepUntil(second.Add(T * 85 / 100))
+	u.flushAsync()
+	if p, ok := u.natPort[cs]; (!ok || p != port0) && time.Since(second) < T-3*time.Millisecond {
+		u.out.Oracle("C14", "association of %s did not survive %v after its latest datagram (timeout %v)", cs, time.Since(second), T)
+	}
+	third := time.Now()
+	u.opPkt(c, unknown, pktOpts{conn: u.conn, forceValid: true, noDNS: true})
+	if p, ok := u.natPort[cs]; ok && p != port0 {
+		u.out.Oracle("C04", "datagrams of %s left from two sockets while its association was alive", cs)
+	}
+	u.out.Stat("life.keepalive", 1)
+	if u.r.Chance(50) {
+		// 2. idle expiry within bounded time
+		ok := u.ev.waitFor(func(e event) bool { return e.kind == "natremove" && e.client == cs }, T+1500*time.Millisecond)
+		idle := time.Since(third)
+		u.flushAsync()
+		if !ok {
+			u.out.Oracle("C14", "idle association of %s was not torn down within %v (timeout %v)", cs, idle, T)
+		} else if idle < T-5*time.Millisecond {
+			u.out.Oracle("C14", "association of %s was torn down %v after its latest datagram (timeout %v)", cs, idle, T)
+		}
+		u.out.Stat("life.idle-expiry", 1)
+		return
+	}
+	// 3. teardown race
+	u.gate.mu.Lock()
+	u.gate.armed = true
+	u.gate.mu.Unlock()
+	select {
+	case <-u.gate.reached:
+	case <-time.After(T + 1500*time.Millisecond):
+		u.gate.take()
+		u.out.Oracle("C14", "idle association of %s was not torn down within bounded time (timeout %v)", cs, T)
+		return
+	}
+	// the copier of cs is inside RemoveNatEntry: entry still in the table, socket still open
+	u.opPkt(c, unknown, pktOpts{conn: u.conn, forceValid: true, noDNS: true})
+	u.gate.release <- struct{}{}
+	u.ev.waitFor(func(e event) bool { return e.kind == "natremove" && e.client == cs }, time.Second)
+	time.Sleep(2 * time.Millisecond)
+	u.flushAsync()
+	// after the teardown a new datagram creates a fresh association on a new socket
+	u.opPkt(c, unknown, pktOpts{conn: u.conn, forceValid: true, noDNS: true})
+	u.out.Stat("life.teardown-race", 1)
 }
 
 func (u *udpCase) isPublicSink(s *udpSink) bool { return !isForbiddenDst(s.addr.IP) }
@@ -353,6 +461,7 @@ func (u *udpCase) run(caseNo int) {
 	u.natPort, u.portLbl, u.assocKey = map[string]int{}, map[int]string{}, map[string]int{}
 	u.writes, u.salts, u.ipIDs = map[string][2]int{}, map[string]bool{}, map[string]int{}
 	u.reads = map[string]int{}
+	u.lastDest = map[string]dest{}
 	u.sums, u.obs, u.idOf = map[string][4]int64{}, map[string][4]int64{}, map[string]string{}
 	u.entries = genEntries(r, u.kt, 1+r.Intn(6))
 	// keys that exist but are not configured
@@ -363,7 +472,11 @@ func (u *udpCase) run(caseNo int) {
 		out.Note("cipher list: %v", err)
 		return
 	}
-	h := service.NewPacketHandler(time.Hour, cl, &udpMetricsRec{ev: u.ev}, &searchRec{ev: u.ev})
+	if u.timeout == 0 {
+		u.timeout = time.Hour
+	}
+	u.gate = &removeGate{reached: make(chan struct{}, 1), release: make(chan struct{})}
+	h := service.NewPacketHandler(u.timeout, cl, &udpMetricsRec{ev: u.ev, gate: u.gate}, &searchRec{ev: u.ev})
 	u.hook = &valHook{reached: make(chan struct{}, 1), release: make(chan struct{})}
 	allow := u.allow
 	hook := u.hook
@@ -401,7 +514,21 @@ func (u *udpCase) run(caseNo int) {
 		}
 		clients = append(clients, &net.UDPAddr{IP: ip, Port: 40000 + r.Intn(4)})
 	}
+	if r.Chance(15) {
+		// two hosts on different links with the same link-local address and port
+		clients = append(clients, &net.UDPAddr{IP: net.ParseIP("fe80::77"), Port: 40000, Zone: "eth0"},
+			&net.UDPAddr{IP: net.ParseIP("fe80::77"), Port: 40000, Zone: "eth1"})
+		out.Stat("case.zoned-clients", 1)
+	}
+	if u.lifeMode {
+		u.lifeScenario(clients, unknown)
+		nopsLife := 0
+		_ = nopsLife
+	}
 	nops := 6 + r.Intn(16)
+	if u.lifeMode {
+		nops = 0
+	}
 	for k := 0; k < nops; k++ {
 		u.flushAsync()
 		switch {
@@ -456,13 +583,14 @@ func (u *udpCase) run(caseNo int) {
 		}
 	}
 	live := len(u.natPort)
-	for dl := time.Now().Add(3 * time.Second); u.countRemoves() < live && time.Now().Before(dl); {
+	for dl := time.Now().Add(1500 * time.Millisecond); u.countRemoves() < live && time.Now().Before(dl); {
 		time.Sleep(200 * time.Microsecond)
 	}
 	time.Sleep(2 * time.Millisecond)
 	u.flushAsync()
 	if len(u.natPort) != 0 {
 		out.Oracle("C14", "after shutdown %d association(s) were never removed: %v", len(u.natPort), keysOf(u.natPort))
+		out.Oracle("C16", "after shutdown %d association(s) were never reported removed: %v", len(u.natPort), keysOf(u.natPort))
 	}
 	// stray datagrams: anything a target received that no op accounted for
 	stray := 0
@@ -699,6 +827,9 @@ func (u *udpCase) opPkt(client *net.UDPAddr, unknown []*specKey, opts pktOpts) {
 			ce = cfgEntry{keyref: u.assocKey[cs]}
 		}
 	}
+	if hasAssoc && opts.forceValid {
+		ce = cfgEntry{keyref: u.assocKey[cs]}
+	}
 	usedKey, usedRef = u.kt.keys[ce.keyref], ce.keyref
 	roll := r.Intn(100)
 	if opts.forceValid {
@@ -707,8 +838,12 @@ func (u *udpCase) opPkt(client *net.UDPAddr, unknown []*specKey, opts pktOpts) {
 	switch {
 	case roll < 62:
 		d = u.pickDest()
+		if ld, ok := u.lastDest[cs]; ok && !opts.forceValid && r.Chance(35) {
+			d = ld // same destination again (a flow): policy must be applied to every datagram
+		}
+		u.lastDest[cs] = d
 		if opts.forceValid {
-			for i := 0; i < 50 && (d.kind == "domain-literal" || (!u.allow && !u.isPublicSink(d.sink))); i++ {
+			for i := 0; i < 50 && (d.kind == "domain-literal" || (!u.allow && !u.isPublicSink(d.sink)) || (opts.noDNS && d.sink.addr.Port == 53)); i++ {
 				d = u.pickDest()
 			}
 		}
